@@ -122,18 +122,14 @@ func c18Check(c *rt.Ctx, sub int, b []byte) {
 	stdValid := stdjson.Valid(b)
 	if stdValid != ref {
 		if ref && nestingDepth(b) > 10000 {
-			// encoding/json's own nesting limit: only survival is observed for such texts
-			c.Obs("beyond_reference_depth_limit_not_judged", 1)
-			rt.Guard(func() { gojson.Valid(b) })
-			var gb bytes.Buffer
-			rt.Guard(func() { gojson.Compact(&gb, b) })
-			gb.Reset()
-			rt.Guard(func() { gojson.Indent(&gb, b, "", " ") })
-			c.Eval(3)
+			// encoding/json's nesting limit (10000 levels), which go-json shares: such a text is
+			// rejected by all four functions there, and must be here
+			c.Obs("beyond_depth_limit_judged_as_rejected", 1)
+			ref = false
+		} else {
+			c.Inconclusive("reference disagreement on " + rt.Q(b))
 			return
 		}
-		c.Inconclusive("reference disagreement on " + rt.Q(b))
-		return
 	}
 	// ---- Valid
 	var gv bool
@@ -588,15 +584,15 @@ func init() {
 			default:
 				// nesting up to and across encoding/json's depth limit
 				sub := 0
-				for _, d := range []int{1, 2, 50, 500, 5000, 9999, 10000, 10001} {
-					for _, shape := range [][3]string{{"[", "]", "1"}, {`{"a":`, "}", "null"}, {`[{"k":`, "}]", `"x"`}} {
+				for _, d := range []int{1, 2, 50, 500, 4999, 5000, 5001, 9999, 10000, 10001, 10002} {
+					for _, shape := range [][3]string{{"[", "]", "1"}, {`{"a":`, "}", "null"}, {`[{"k":`, "}]", `"x"`}, {`{"a":`, "}", "{}"}, {"[", "]", "[]"}, {"[", "]", "{}"}, {`{"a":`, "}", "[]"}, {`{"k":[`, "]}", "1"}} {
 						doc := c18Nested(shape[0], shape[1], d, shape[2])
 						c18Check(c, sub, doc)
 						c.NonTrivial("nest", shape[0], string(rune(d)))
 						sub++
 					}
 				}
-				c.ObsMax("max_nesting_depth", 10001)
+				c.ObsMax("max_nesting_depth", 20004)
 			}
 		},
 	})
